@@ -203,6 +203,19 @@ func checkC14(c *c14Case) (ds []hx.Discrepancy, info map[string]bool) {
 			if err == nil {
 				// the injected failure did not fail (e.g. a reader fault placed inside trailing white
 				// space): the history is not the one intended - stop here, nothing to compare
+				// ... unless a root that only ever saw the successful documents refuses it: the verdict
+				// on a document must not depend on what earlier, refused, loads left behind
+				if st.Kind == "fail" && st.Class != "reader-fault" {
+					twin := ggql.NewRoot(newRootObj())
+					ok := true
+					for _, txt := range good {
+						ok = ok && twin.ParseString(txt) == nil
+					}
+					if terr := twin.ParseString(st.Text); ok && terr != nil && countFails(c.Steps[:i]) > 0 {
+						add("verdict-depends-on-refused-loads", "", "step %d: the document is accepted by the root (which has seen %d refused loads) and refused by a fresh root given the same %d successful documents: %v\n%s", i, countFails(c.Steps[:i]), len(good), terr, history(i))
+						return
+					}
+				}
 				info["injected-failure-did-not-fail(case abandoned)"] = true
 				return
 			}
